@@ -260,8 +260,16 @@ def fb_epoch(ctx):
                     isinstance(s2.value, ast.Call) and '.iloc[%s]' % M.c in norm_text(s2.value):
                 incs.add(s2.targets[0].id)
         ok, why = False, 'argument of predict is `%s`' % (norm_text(arg) if arg is not None else '')
-        used = [n.id for n in ast.walk(arg) if isinstance(n, ast.Name) and n.id in incs] \
-            if arg is not None else []
+        def incs_in(e_, depth=0):
+            out = [n.id for n in ast.walk(e_) if isinstance(n, ast.Name) and n.id in incs]
+            if not out and depth < 3:
+                for n in ast.walk(e_):
+                    if isinstance(n, ast.Name):
+                        d_ = _local_def(M, n.id, st)
+                        if d_ is not None:
+                            out += incs_in(d_, depth + 1)
+            return out
+        used = incs_in(arg) if arg is not None else []
         if used:
             inc = used[0]
             try:
@@ -282,19 +290,21 @@ def fb_epoch(ctx):
             if st is not None else []
         for sc in ser:
             e = sc.args[0]
-            used = [n.id for n in ast.walk(e) if isinstance(n, ast.Name) and n.id in incs]
+            used = incs_in(e)
             okr = False
+            whyr = ''
             if used:
                 try:
                     v = _scalar(A, e, {tvar: 't0'}, used[0], M, g, st)
                     okr = A.eq(v, A.div(A.sym('THETA'), A.sym('dt')))
-                except ValueError:
+                except ValueError as ex:
                     okr = False
+                    whyr = ' (%s)' % ex
             ctx.ob('INTERP-FB', okr, None, 'body rates = theta / dt of the pending increment', f=g,
                    node=sc, key='fb-rates',
                    why='feedback: the body rates handed to the measurement models are `%s`, not '
-                       'the rotation increment of the pending sample divided by its dt'
-                       % norm_text(e)[:80])
+                       'the rotation increment of the pending sample divided by its dt%s'
+                       % (norm_text(e)[:80], whyr))
 
 
 def _scalar(A, e, names, inc, M, g, st):
@@ -307,6 +317,10 @@ def _scalar(A, e, names, inc, M, g, st):
     if isinstance(e, ast.Name):
         if names.get(e.id):
             return A.sym(names[e.id])
+        d_ = _local_def(M, e.id, st)
+        if d_ is not None and any(isinstance(x, ast.Name) and x.id == inc for x in ast.walk(d_)):
+            # a local derived from the pending increment (`partial = a * increment`)
+            return _scalar(A, d_, names, inc, M, g, st)
         t = M.clo.text(e, st)
         if t == '%s[%s]' % (M.T, M.m):
             return A.sym('Tm')
@@ -329,6 +343,20 @@ def _scalar(A, e, names, inc, M, g, st):
     if isinstance(e, ast.Attribute) and isinstance(e.value, ast.Name) and e.value.id == inc and \
             e.attr == 'dt':
         return A.sym('dt')
+    if isinstance(e, ast.Subscript) and isinstance(e.value, ast.Name) and e.value.id != inc:
+        # a column (group) of a row derived linearly from the pending increment
+        d_ = _local_def(M, e.value.id, st)
+        if d_ is not None and any(isinstance(x, ast.Name) and x.id == inc for x in ast.walk(d_)):
+            v = _scalar(A, d_, names, inc, M, g, st)
+            if norm_text(e.slice) == "'dt'":
+                col = 'dt'
+            else:
+                try:
+                    cols = _fold_cols(g, e.slice)
+                except ValueError:
+                    raise ValueError('`%s` not understood' % norm_text(e)[:50])
+                col = 'THETA' if cols == 'theta' else 'COLS_' + cols
+            return A.subst(v, {'INC': A.sym(col)})
     if isinstance(e, ast.BinOp):
         a, b = _scalar(A, e.left, names, inc, M, g, st), _scalar(A, e.right, names, inc, M, g, st)
         if isinstance(e.op, ast.Add):
@@ -338,8 +366,21 @@ def _scalar(A, e, names, inc, M, g, st):
         if isinstance(e.op, ast.Mult):
             return A.mul(a, b)
         if isinstance(e.op, ast.Div):
+            # a denominator that vanishes when the epoch coincides with the latest state (the
+            # elapsed fraction is 0: inside the domain, the drain test admits T[m] == time)
+            if not A.is_zero(b) and A.is_zero(A.subst(b, {'Tm': A.sym('t0')})):
+                raise ValueError('`%s` divides by `%s`, which is zero when the measurement epoch '
+                                 'coincides with the time of the latest state (elapsed fraction 0): '
+                                 '0/0 = NaN' % (norm_text(e)[:60], norm_text(e.right)[:40]))
             return A.div(a, b)
     raise ValueError('`%s` not understood' % norm_text(e)[:50])
+
+
+def _local_def(M, name, at):
+    """value of a local assigned exactly once in the loop (any nesting), else None"""
+    ds = [s_ for s_ in ast.walk(M.loop) if isinstance(s_, ast.Assign) and len(s_.targets) == 1 and
+          isinstance(s_.targets[0], ast.Name) and s_.targets[0].id == name]
+    return ds[0].value if len(ds) == 1 else None
 
 
 def _fold_cols(g, node):
